@@ -443,6 +443,15 @@ pub fn gen_schema(t: &mut Tape) -> SchemaAst {
                 props.push(p.clone());
             }
         }
+        // Object types may narrow an inherited property to its non-null form (schema rule:
+        // inherited fields are present and only narrowed).
+        if !types[k].is_interface {
+            for p in props.iter_mut() {
+                if p.ty.nullable() && t.chance(1, 6) {
+                    p.ty = p.ty.with_nullable(false);
+                }
+            }
+        }
         props.extend(own_props[k].iter().cloned());
         types[k].props = props;
     }
@@ -531,7 +540,12 @@ pub fn gen_schema(t: &mut Tape) -> SchemaAst {
         entry.push(EntryPoint {
             name: format!("Ep{i}"),
             target,
-            card: Card::ManyNonNull,
+            card: match t.draw(6) {
+                0 => Card::Many,
+                1 => Card::One,
+                2 => Card::ZeroOrOne,
+                _ => Card::ManyNonNull,
+            },
             params,
             vertices: vec![],
         });
@@ -559,6 +573,14 @@ fn gen_params(target_props: &[PropDef], t: &mut Tape, _owner: &str) -> Vec<Param
             } else {
                 (ParamMeaning::EqProp(p.name.clone()), p.ty.clone())
             }
+        } else if t.chance(1, 4) {
+            // a list-typed parameter (opaque to the data source's semantics)
+            let lt = match t.draw(3) {
+                0 => Ty::list(Ty::named(Base::Int, false), true),
+                1 => Ty::list(Ty::named(Base::Str, true), false),
+                _ => Ty::list(Ty::named(Base::Int, true), true),
+            };
+            (ParamMeaning::Opaque, lt)
         } else {
             (ParamMeaning::Opaque, Ty::named(Base::Int, true))
         };
